@@ -262,6 +262,14 @@ func (c *VConn) Close() error {
 	return nil
 }
 
+// Fin ends the connection cleanly from outside (a middlebox, or a peer process that died after its kernel sent
+// FIN): both ends read io.EOF once their buffered data is consumed; nothing is reset.
+func (c *VConn) Fin() {
+	c.eof, c.peer.eof = true, true
+	vrt.ReleaseMerge(uintptr(unsafe.Pointer(c)))
+	vrt.ReleaseMerge(uintptr(unsafe.Pointer(c.peer)))
+}
+
 // Break severs the connection from outside (fault injection by a harness).
 func (c *VConn) Break() {
 	c.broken, c.peer.broken = true, true
